@@ -248,3 +248,108 @@ def memoised(p: Program, fn: FuncInfo) -> List[Tuple[str, str]]:
         if m.fq == fn.fq and is_cache:
             out.append((where(site_fn, node), " ".join(ast.unparse(node).split())[:100]))
     return out
+
+
+# ----------------------------------------------------------------------------- stale-index deletes
+def _assigned_values(fn: FuncInfo, name: str) -> List[ast.expr]:
+    """right-hand sides that (part of) `name` is bound from inside fn (plain, annotated and unpacking assignments)"""
+    out = []
+    for n in ast.walk(fn.node):
+        if isinstance(n, ast.Assign):
+            for t in n.targets:
+                if isinstance(t, ast.Name) and t.id == name:
+                    out.append(n.value)
+                elif isinstance(t, (ast.Tuple, ast.List)):
+                    for el in t.elts:
+                        x = el.value if isinstance(el, ast.Starred) else el
+                        if isinstance(x, ast.Name) and x.id == name:
+                            out.append(n.value)
+        elif isinstance(n, ast.AnnAssign) and isinstance(n.target, ast.Name) and n.target.id == name and n.value is not None:
+            out.append(n.value)
+    return out
+
+
+def _positions_of(fn: FuncInfo, e: ast.expr, depth: int = 0) -> Optional[Tuple[str, bool]]:
+    """If `e` evaluates to positions (indexes) of a sequence: (text of that sequence, descending?)"""
+    if depth > 6:
+        return None
+    if isinstance(e, ast.Name):
+        for v in _assigned_values(fn, e.id):
+            r = _positions_of(fn, v, depth + 1)
+            if r is not None:
+                return r
+        return None
+    if isinstance(e, ast.Call):
+        fname = e.func.id if isinstance(e.func, ast.Name) else (e.func.attr if isinstance(e.func, ast.Attribute) else "")
+        if fname == "reversed" and e.args:
+            r = _positions_of(fn, e.args[0], depth + 1)
+            return None if r is None else (r[0], not r[1])
+        if fname == "sorted" and e.args:
+            r = _positions_of(fn, e.args[0], depth + 1)
+            rev = next((k.value for k in e.keywords if k.arg == "reverse"), None)
+            return None if r is None else (r[0], isinstance(rev, ast.Constant) and bool(rev.value))
+        if fname in ("tuple", "list", "iter") and e.args:
+            return _positions_of(fn, e.args[0], depth + 1)
+        if fname == "range" and e.args:
+            step = e.args[2] if len(e.args) > 2 else None
+            lens = [a for a in e.args if isinstance(a, ast.Call) and isinstance(a.func, ast.Name) and a.func.id == "len" and a.args] + \
+                   [x for a in e.args for x in ast.walk(a) if isinstance(x, ast.Call) and isinstance(x.func, ast.Name) and x.func.id == "len" and x.args]
+            if lens:
+                desc = isinstance(step, ast.UnaryOp) and isinstance(step.op, ast.USub)
+                return ast.unparse(lens[0].args[0]), desc
+        return None
+    if isinstance(e, (ast.GeneratorExp, ast.ListComp, ast.SetComp)) and len(e.generators) == 1:
+        g = e.generators[0]
+        if isinstance(g.iter, ast.Call) and isinstance(g.iter.func, ast.Name) and g.iter.func.id == "enumerate" and g.iter.args \
+                and isinstance(g.target, ast.Tuple) and g.target.elts and isinstance(g.target.elts[0], ast.Name) and isinstance(e.elt, ast.Name) and e.elt.id == g.target.elts[0].id:
+            return ast.unparse(g.iter.args[0]), False
+        return None
+    if isinstance(e, ast.Subscript) and isinstance(e.slice, ast.Slice):
+        r = _positions_of(fn, e.value, depth + 1)
+        if r is None:
+            return None
+        st = e.slice.step
+        neg = isinstance(st, ast.UnaryOp) and isinstance(st.op, ast.USub)
+        return (r[0], (not r[1]) if neg else r[1])
+    return None
+
+
+def stale_index_deletes(fn: FuncInfo) -> List[Tuple[ast.AST, str, bool]]:
+    """Loops that delete list elements by position while walking the positions in ASCENDING order: after the first
+    deletion every later position is off by one (a wrong element is removed, or IndexError).
+    Returns (node, description, ok) for every recognised delete-by-position loop; ok=False is the defect."""
+    out = []
+    for loop in ast.walk(fn.node):
+        if not isinstance(loop, ast.For) or not isinstance(loop.target, ast.Name):
+            continue
+        pos = _positions_of(fn, loop.iter)
+        if pos is None:
+            continue
+        seq, desc = pos
+        for n in ast.walk(ast.Module(body=loop.body, type_ignores=[])):
+            hit = None
+            if isinstance(n, ast.Delete):
+                for t in n.targets:
+                    if isinstance(t, ast.Subscript) and isinstance(t.slice, ast.Name) and t.slice.id == loop.target.id and ast.unparse(t.value) == seq:
+                        hit = n
+            elif isinstance(n, ast.Call) and isinstance(n.func, ast.Attribute) and n.func.attr == "pop" and n.args and isinstance(n.args[0], ast.Name) \
+                    and n.args[0].id == loop.target.id and ast.unparse(n.func.value) == seq:
+                hit = n
+            if hit is None:
+                continue
+            if desc:
+                out.append((hit, f"positions of {seq} are walked in descending order while elements are deleted by position", True))
+                continue
+            # a single deletion followed by leaving the loop is fine
+            stmt = enclosing_stmt(hit)
+            par = getattr(stmt, "_parent", None)
+            blk = None
+            for fld in ("body", "orelse"):
+                b = getattr(par, fld, None)
+                if isinstance(b, list) and stmt in b:
+                    blk = b
+            if blk is not None and blk.index(stmt) + 1 < len(blk) and isinstance(blk[blk.index(stmt) + 1], (ast.Break, ast.Return)):
+                out.append((hit, f"one element of {seq} is deleted by position and the loop is left", True))
+                continue
+            out.append((hit, f"positions of {seq} are walked in ascending order ({' '.join(ast.unparse(loop.iter).split())[:60]}) while elements are deleted by position", False))
+    return out
